@@ -26,7 +26,7 @@ RULE = (
     "must be 1 exactly for its members, for every strategy / reindex. Non-trivial = >=2 blocks and >=2 labels with "
     "different block sets."
 )
-BUDGET = {"quick": 250, "thorough": 3000}
+BUDGET = {"quick": 500, "thorough": 3000}
 ASSUMPTIONS = [
     "code arrays whose elements are all -1 (no present label) are skipped (degenerate input recorded under C02's known finding)",
     "absent labels may be listed in a cohort (harmless): P1 constrains present labels only",
